@@ -35,7 +35,9 @@ import traceback
 
 VERIF = "/verif"
 COQ = VERIF + "/coq"
-REPO = "/repo"
+# VERIF_REPO is only for trying the checks on a scratch copy (mutant testing);
+# the registered commands never set it.
+REPO = os.environ.get("VERIF_REPO", "/repo")
 PY = "/venv/bin/python"
 
 sys.path.insert(0, VERIF + "/harness")
